@@ -74,7 +74,34 @@ def run_forms(s, path, db=0, odb=None, subset=None, prefix='form', reset=True, t
             for k in forms.PRE_KEYS:
                 s.cmd(c, [b'PEXPIRE', k, b'25'])
             time.sleep(0.04)
-        if path == 'direct':
+        watcher = None
+        if path.startswith('watched'):
+            # C08: another connection watches the keys of the pre-state (plus names the forms create) before the form runs —
+            # 'watched-others-*': only the keys the form does NOT name — and then tries a transaction of its own
+            watcher = s.open()
+            if db:
+                s.cmd(watcher, [b'SELECT', str(db).encode()])
+            names = forms.PRE_KEYS + [b'new', b'nokey', b'']
+            if path.startswith('watched-others'):
+                names = [k for k in names if k not in a[1:]]
+                if a[0].upper() in (b'FLUSHDB', b'FLUSHALL', b'RANDOMKEY', b'KEYS', b'SCAN', b'DBSIZE'):
+                    names = [b'never-created']
+            s.cmd(watcher, [b'WATCH'] + names)
+            how = path.split('-')[-1]
+            if how == 'direct':
+                s.cmd(c, a)
+            elif how == 'multi':
+                s.cmd(c, [b'MULTI'])
+                s.cmd(c, a)
+                s.cmd(c, [b'EXEC'])
+            else:
+                eval_form(s, c, a, 'lit', how == 'pcall')
+            if watcher in s.clients:
+                s.cmd(watcher, [b'MULTI'])
+                s.cmd(watcher, [b'SET', b'marker', b'1'])
+                s.cmd(watcher, [b'EXEC'])
+                s.cmd(watcher, [b'EXISTS', b'marker'])
+        elif path == 'direct':
             s.cmd(c, a)
         elif path == 'multi':
             s.cmd(c, [b'MULTI'])
